@@ -166,6 +166,13 @@ func outLast() any                               { return nil }
 //@ props C17 C18
 //@ pure
 //@ ensures nonnil: r0 != nil
+//@ ensures [C17 C18] stored-zone: is[*time.Location](ctx.Value(tzKey)) ==> r0 == as[*time.Location](ctx.Value(tzKey))
+//@ ensures [C17 C18] default-utc: !is[*time.Location](ctx.Value(tzKey)) ==> r0 == time.UTC
+
+//@ func ContextWithTZ
+//@ props C17 C18
+//@ ensures [C17 C18] carried: tz != nil ==> is[*time.Location](r0.Value(tzKey)) && as[*time.Location](r0.Value(tzKey)) == tz
+//@ ensures [C17] nil-keeps: tz == nil ==> r0 == ctx
 
 //@ func adjustPrecision
 //@ props C17 C18
